@@ -377,6 +377,15 @@ def run_scenario(sc):
     tenv = ThreadEnv()
     sysv = sim.v["sys"]
     sysv.mod.ENV = tenv
+    for th in sc["threads"]:
+        for rnd in rounds_of(th):
+            for sl in (rnd.get("probe") or {}).get("sels", []):
+                for lv in sl["levels"]:
+                    if lv.get("ref"):
+                        # the thread selects through the absolute reference of that very function:
+                        # the reference is resolved (by the thread) while the others swap its code
+                        lv["recv_path"] = ptera.refstring(sim.raw_function(sysv, lv["fn"]))
+                        stats["probe_by_reference"] = stats.get("probe_by_reference", 0) + 1
     ptera_dir = os.path.dirname(os.path.abspath(ptera.__file__)) + os.sep
     import codefind.registry as reg
 
